@@ -4,7 +4,7 @@ open Glue
 module M = Tt_model
 
 let () =
-  Registry.register "c20-topo" (fun s ->
+  Registry.register "topo" (fun s ->
     (* ((adj (n (d ...)) ...) (req ...) (out ...)) *)
     match list s with
     | [adj; req; out] ->
@@ -14,7 +14,7 @@ let () =
         let m = M.c20_topo g req in
         List [of_opt (of_list of_nat) m; of_bool (M.c20_topo_ok g req out)]
     | _ -> failwith "c20-topo: bad case");
-  Registry.register "c20-kahn" (fun s ->
+  Registry.register "kahn" (fun s ->
     (* ((order ...) (deps (f t) ...) res) with res = () for Err, ((..)) for Ok *)
     match list s with
     | [order; deps; res] ->
